@@ -29,7 +29,7 @@ import elementpath.aliases as ta
 
 from elementpath.exceptions import ElementPathError
 from elementpath.tdop import MultiLabel
-from elementpath.helpers import Patterns, is_xml_codepoint, node_position
+from elementpath.helpers import Patterns, is_xml_codepoint, node_position, get_double
 from elementpath.namespaces import get_expanded_name, split_expanded_name, \
     XPATH_FUNCTIONS_NAMESPACE
 from elementpath.datatypes import NumericProxy, QName, Date, DateTime, Time, AnyURI
@@ -401,7 +401,8 @@ def evaluate__sqrt(self: XPathFunction, context: ta.ContextType = None) -> ta.On
     arg: ta.NumericType | None = self.get_argument(self.context or context, cls=NumericProxy)
     if arg is None:
         return []
-    elif arg < 0:
+    arg = get_double(arg)
+    if arg < 0:
         return math.nan
     return math.sqrt(arg)
 
@@ -412,7 +413,8 @@ def evaluate__sin(self: XPathFunction, context: ta.ContextType = None) -> ta.One
     arg: ta.NumericType | None = self.get_argument(self.context or context, cls=NumericProxy)
     if arg is None:
         return []
-    elif math.isinf(arg):
+    arg = get_double(arg)
+    if math.isinf(arg):
         return math.nan
     return math.sin(arg)
 
@@ -423,7 +425,8 @@ def evaluate__cos(self: XPathFunction, context: ta.ContextType = None) -> ta.One
     arg: ta.NumericType | None = self.get_argument(self.context or context, cls=NumericProxy)
     if arg is None:
         return []
-    elif math.isinf(arg):
+    arg = get_double(arg)
+    if math.isinf(arg):
         return math.nan
     return math.cos(arg)
 
@@ -434,7 +437,8 @@ def evaluate__tan(self: XPathFunction, context: ta.ContextType = None) -> ta.One
     arg: ta.NumericType | None = self.get_argument(self.context or context, cls=NumericProxy)
     if arg is None:
         return []
-    elif math.isinf(arg):
+    arg = get_double(arg)
+    if math.isinf(arg):
         return math.nan
     return math.tan(arg)
 
@@ -467,6 +471,7 @@ def evaluate__atan(self: XPathFunction, context: ta.ContextType = None) -> ta.On
     arg: ta.NumericType | None = self.get_argument(self.context or context, cls=NumericProxy)
     if arg is None:
         return []
+    arg = get_double(arg)
     return math.atan(arg)
 
 
@@ -478,7 +483,7 @@ def evaluate__atan2(self: XPathFunction, context: ta.ContextType = None) -> ta.O
 
     x = self.get_argument(context, required=True, cls=NumericProxy)
     y = self.get_argument(context, index=1, required=True, cls=NumericProxy)
-    return math.atan2(x, y)
+    return math.atan2(get_double(x), get_double(y))
 
 
 ###
@@ -665,7 +670,7 @@ def evaluate__format_number(self: XPathFunction, context: ta.ContextType = None)
         if any(EXPONENT_PIC.search(s) for s in sub_pictures):
             raise self.error('FODF1310')
 
-    if value is None or math.isnan(value):
+    if value is None or not isinstance(value, int) and math.isnan(value):
         return f"{decimal_format['NaN']}"
     elif isinstance(value, float):
         value = decimal.Decimal.from_float(value)
